@@ -131,7 +131,7 @@ type c03Block struct {
 	loc        string
 	content    []byte
 	consistent bool
-	declOnly   bool // inconsistent-hint blocks: every scripted 200 answer declares a Content-Length
+	declOnly   bool // inconsistent-hint blocks, a stratum: every scripted 200 answer declares a Content-Length
 	order      []int
 	script     [][]c03Resp
 }
@@ -279,6 +279,10 @@ func c03Err(err error) string {
 	}
 	if strings.Contains(err.Error(), "!= Content-Length") {
 		return "ESizeMismatch"
+	}
+	if strings.Contains(err.Error(), "wrong number of bytes") {
+		// ErrBlockSizeMismatch (fix F25); matched by text so that this harness also builds against a tree without the fix
+		return "EBadSize"
 	}
 	if strings.Contains(err.Error(), "unexpected EOF") {
 		return "EUEOF"
@@ -565,7 +569,7 @@ func c03Gen(t *testing.T, r *vRand, i int) *c03Case {
 				}
 				bl.loc = fmt.Sprintf("%s+%d", hash, h)
 				bl.consistent = false
-				bl.declOnly = r.Chance(2, 3)
+				bl.declOnly = r.Chance(1, 3) // since fix F25 answers without Content-Length are judged like the others
 				c.tags = append(c.tags, "inconsistent-hint")
 				if h > len(content) {
 					c.tags = append(c.tags, "hint-too-big")
